@@ -56,6 +56,7 @@ TableVerdict(e) ==
   ELSE IF e.parent # <<>> /\ (LET p == e.parent[1] q == p.q
                                  y0 == p.preg[q[1] + 1][q[3] + 1][1] x0 == p.preg[q[1] + 1][q[3] + 1][3] IN
           \/ ny # q[2] - q[1] \/ nx # q[4] - q[3]
+          \/ Len(p.preg) < q[2] \/ (\E r \in (q[1] + 1)..q[2] : Len(p.preg[r]) < q[4])         \* (the parent's own table is short: verdicts stay total)
           \/ \E r \in 1..ny, c \in 1..nx : LET g == p.preg[q[1] + r][q[3] + c] IN
                 R[r][c] # <<g[1] - y0, g[2] - y0, g[3] - x0, g[4] - x0>>) THEN "crop_is_not_the_rebased_tiling_of_the_cropped_rectangle"
   ELSE "ok"
